@@ -149,8 +149,16 @@ func genOperand(t *rapid.T, depth int) string {
 		}
 		return b.String()
 	}
+	if rapid.IntRange(0, 9).Draw(t, "hot") < 3 {
+		return rapid.SampledFrom(hotOperands).Draw(t, "hotoperand")
+	}
 	return rapid.SampledFrom(operands).Draw(t, "operand")
 }
+
+// operands that have been at the root of real crashes: typed nils, nil interfaces,
+// pointers, invalid dereferences, huge sizes, structs with interface fields
+var hotOperands = []string{"pl[0]", "il[0]", "n", "nil", "p", "ps", "*p", "&i", "st", "si", "mod", "ch", "uc", "fn", "l", "m", "tl", "tm", "s", "i",
+	"9223372036854775807", "-9223372036854775808", "72057594037927936", "make([]*int64, 2)", "make(map[string]*int64)", "new(struct{A int64})", "[nil]", "id(nil)", "[p][0]", "make(*int64)", "ll[0]", "m.b"}
 
 func genTargeted(t *rapid.T) Case {
 	c := Case{Kind: "targeted"}
